@@ -5,7 +5,7 @@
    shape and the leaf sizes of the structure s.  `leaf_honest leafsem e` / `leaf_defined leafsem e`:
    the leaf operator e (primitive or lazy wrapper), applied to a value of its declared input structure,
    returns a value of its declared output structure / returns something. *)
-From Coq Require Import List Bool ZArith NArith.
+From Coq Require Import List Bool ZArith NArith String.
 From Furax Require Import Base.Pytree Model.Op Model.Algebra Model.Denote Model.Wf Model.Structs
   Lemmas.StructsL.
 From Furax Require Model.StokesTree Model.Exec Lemmas.Sound.
@@ -79,10 +79,24 @@ Print Assumptions out_structure_honest_dtypes.
    type/shape of its array parameter) under the property's own guard `params_not_wider`; hence, for
    every expression tree, declared = evaluated *)
 Theorem declared_is_evaluated : forall (K : Type) (x64 : bool) (info : infos) (e : op K),
-  wfo e = true -> params_not_wider x64 info e = true -> dtypes_available x64 e = true ->
+  wfo e = true -> ctor_checked x64 info e = true -> params_not_wider x64 info e = true -> dtypes_available x64 e = true ->
   xeval x64 info e (in_struct e) = Some (out_struct e).
 Proof. exact xeval_honest_l. Qed.
 Print Assumptions declared_is_evaluated.
+(* `ctor_checked`: what the constructors of the diagonal classes verified on an existing object.  The
+   constructors themselves (`diag_ctor strict (shape of the values) axis_destination (leaf shapes)`, None =
+   ValueError; the shape arithmetic of _reshape_leaves for destination axes inside, at and beyond the leaf
+   rank on both sides): whatever DiagonalOperator accepts keeps the shape of EVERY leaf - the square
+   declaration out_structure() = in_structure() is honest - and BroadcastDiagonalOperator accepts it too,
+   with the same result. *)
+Theorem diagonal_ctor_honest : forall dsh spec leaves axes outs,
+  diag_ctor true dsh spec leaves = Some (axes, outs) -> outs = leaves /\ axes = spec_axes spec (List.length dsh).
+Proof. exact diag_ctor_strict_l. Qed.
+Print Assumptions diagonal_ctor_honest.
+Theorem diagonal_ctor_implies_broadcast : forall dsh spec leaves r,
+  diag_ctor true dsh spec leaves = Some r -> diag_ctor false dsh spec leaves = Some r.
+Proof. exact diag_ctor_strict_broadcast_l. Qed.
+Print Assumptions diagonal_ctor_implies_broadcast.
 Theorem xeval_is_abstract_evaluation : forall (K : Type) (x64 : bool) (info : infos) (e : op K) s,
   xeval x64 info e s = seval x64 (xeval x64 info) e s.
 Proof. exact xeval_seval. Qed.
@@ -132,23 +146,38 @@ Definition v5d : struct := Leaf (mkSds [5] 1).         (* float64[5] *)
 (* 2 * Toeplitz(band of 2 values): guards hold, declared = evaluated *)
 Example guard_satisfiable :
   let e : op Z := Comp 3%N [Homoth 1%N 2%Z v5; Prim 2%N CToeplitz v5 v5 PNone] in
-  let info := [(1%N, mkPinfo f32 []); (2%N, mkPinfo f32 [2])] in
-  wfo e = true /\ params_not_wider false info e = true /\ dtypes_available false e = true /\
-  xeval false info e (in_struct e) = Some (out_struct e).
+  let info := [(1%N, mkPinfo f32 [] []); (2%N, mkPinfo f32 [2] [])] in
+  wfo e = true /\ ctor_checked false info e = true /\ params_not_wider false info e = true /\
+  dtypes_available false e = true /\ xeval false info e (in_struct e) = Some (out_struct e).
 Proof. vm_compute. repeat split. Qed.
 (* band values with a batch axis the data does not have: mv returns float32[2,5], declared float32[5] *)
 Example params_not_wider_needed_shape :
   let e : op Z := Prim 2%N CToeplitz v5 v5 PNone in
-  let info := [(2%N, mkPinfo f32 [2; 2])] in
+  let info := [(2%N, mkPinfo f32 [2; 2] [])] in
   wfo e = true /\ dtypes_available false e = true /\ params_not_wider false info e = false /\
   xeval false info e (in_struct e) = Some (Leaf (mkSds [2; 5] 0)) /\ out_struct e = v5.
 Proof. vm_compute. repeat split. Qed.
 (* a float64 scalar on float32 data (64-bit mode): mv returns float64[5], declared float32[5] *)
 Example params_not_wider_needed_dtype :
   let e : op Z := Homoth 1%N 2%Z v5 in
-  let info := [(1%N, mkPinfo f64 [])] in
+  let info := [(1%N, mkPinfo f64 [] [])] in
   wfo e = true /\ dtypes_available true e = true /\ params_not_wider true info e = false /\
   xeval true info e (in_struct e) = Some v5d /\ out_struct e = v5.
+Proof. vm_compute. repeat split. Qed.
+(* the constructor check is needed and is about EVERY leaf: one value at destination axis 1 of
+   {'ground': float32[3], 'tod': float32[3,1]} - the axis lies past the last axis of 'ground', which would come
+   back as float32[3,1]; DiagonalOperator refuses it, BroadcastDiagonalOperator accepts and says so *)
+Definition tod_ground : struct := Node (KDict ["ground"%string; "tod"%string]) [Leaf (mkSds [3] 0); Leaf (mkSds [3; 1] 0)].
+Example ctor_checked_needed :
+  let e : op Z := Prim 1%N CDiagonal tod_ground tod_ground PNone in
+  let info := [(1%N, mkPinfo f32 [1] [1%Z])] in
+  wfo e = true /\ params_not_wider false info e = true /\ dtypes_available false e = true /\
+  ctor_checked false info e = false /\
+  xeval false info e (in_struct e) = Some (Node (KDict ["ground"%string; "tod"%string]) [Leaf (mkSds [3; 1] 0); Leaf (mkSds [3; 1] 0)]) /\
+  out_struct e = tod_ground /\
+  diag_ctor true [1] (AxInt 1) [[3]; [3; 1]] = None /\
+  diag_ctor false [1] (AxInt 1) [[3]; [3; 1]] = Some ([1%Z], [[3; 1]; [3; 1]]) /\
+  diag_ctor true [3] (AxInt 0) [[3]; [3; 1]] = Some ([0%Z], [[3]; [3; 1]]).
 Proof. vm_compute. repeat split. Qed.
 (* a structure declaring float64 while 64-bit mode is off: the sum of two identities evaluates to float32 *)
 Example dtypes_available_needed :
